@@ -272,3 +272,101 @@ def mon_c07(scripts, stats):
                 o = msg_header(a['orig'])
                 if len(sent) != 1 or sent[0] is None or o is None or sent[0]['nonce'] != o['nonce']:
                     yield sc, n, 'C07: %s emitted nonce %s, the original carries %s' % (ty, [s and s['nonce'] for s in sent], o and o['nonce'])
+
+
+# ---------------- C03 ----------------
+def mon_c03(scripts, stats):
+    for sc, n, inp, cmd, ty, a, pre, obs in walk(scripts):
+        if cmd != 'TX' or ty != 'ReceiveMessage':
+            continue
+        stats['mon_c03_receives'] += 1
+        ok = outcome(obs) == 'ok'
+        s0, s1 = state_of(pre), state_of(obs.get('S', []))
+        h = msg_header(a['message'])
+        if not ok:
+            if sorted(obs.get('S', [])) != sorted(pre):
+                yield sc, n, 'C03: failed receive changed the state (nonce consumed or funds moved)'
+            if obs.get('E'):
+                yield sc, n, 'C03: failed receive emitted events'
+            continue
+        # accepted: every acceptance condition that can be read off the trace must hold
+        if h is None:
+            yield sc, n, 'C03: receive of a message shorter than 116 bytes succeeded'
+            continue
+        if s0['flag'].get('sr') == '1':
+            yield sc, n, 'C03: receive succeeded while sending-and-receiving is paused'
+        if h['dst'] != 4:
+            yield sc, n, 'C03: receive succeeded for destination domain %d' % h['dst']
+        if h['version'] != 0:
+            yield sc, n, 'C03: receive succeeded for message version %d' % h['version']
+        if (h['src'], h['nonce']) in nonce_set(s0):
+            yield sc, n, 'C03: receive succeeded for an already used nonce'
+        if (h['src'], h['nonce']) not in nonce_set(s1):
+            yield sc, n, 'C03: successful receive did not consume its nonce'
+        module = h['recipient'] == bytes(12) + bytes.fromhex(sc.env.get('module', '')) if sc.env.get('module') else None
+        mints = [d for d in obs.get('D', []) if ' Mint ' in ' ' + d]
+        if module:
+            b = burn_body(h['body'])
+            if s0['flag'].get('bm') == '1':
+                yield sc, n, 'C03: module-addressed receive succeeded while burning-and-minting is paused'
+            if b is None:
+                yield sc, n, 'C03: module-addressed receive succeeded with a %d-byte body' % len(h['body'])
+            elif b['version'] != 0:
+                yield sc, n, 'C03: module-addressed receive succeeded with burn message version %d' % b['version']
+            msgr = [m for m in s0['messenger'] if int(m['domain']) == h['src']]
+            if not msgr or bytes.fromhex(msgr[0]['addr']) != h['sender']:
+                yield sc, n, 'C03: module-addressed receive succeeded although the sender is not the registered token messenger'
+            if b is not None and not [p for p in s0['pair'] if int(p['domain']) == h['src'] and bytes.fromhex(p['token']) == b['token']]:
+                yield sc, n, 'C03: module-addressed receive succeeded without a linked token pair'
+            if len(mints) != 1 or not mints[0].endswith('ok=1'):
+                yield sc, n, 'C03: module-addressed receive succeeded without exactly one successful mint'
+        elif module is False and mints:
+            yield sc, n, 'C03: receive of a message not addressed to the module minted'
+        # destination caller: all-zero or names the submitter (the harness passes the bech32 string; compare payloads)
+        if any(h['caller']):
+            sub = sc.accounts.get(a.get('from'))
+            # the code names the account by the low 20 bytes of the field (bech32 of caller[12:]); the high 12 bytes are not read
+            if sub is not None and h['caller'][12:] != sub:
+                yield sc, n, 'C03: receive succeeded although the destination caller names another account'
+
+
+# ---------------- C08 ----------------
+def mon_c08(scripts, stats):
+    for sc, n, inp, cmd, ty, a, pre, obs in walk(scripts):
+        if cmd != 'TX' or ty not in ('DepositForBurn', 'DepositForBurnWithCaller'):
+            continue
+        stats['mon_c08_deposits'] += 1
+        ok = outcome(obs) == 'ok'
+        s0 = state_of(pre)
+        if not ok:
+            if sorted(obs.get('S', [])) != sorted(pre):
+                yield sc, n, 'C08: rejected deposit changed the state'
+            continue
+        amt = a['amount']
+        if amt == '-' or int(amt) <= 0:
+            yield sc, n, 'C08: deposit of amount %s accepted' % amt
+            continue
+        tok = hexstr(a['burn_token'])
+        for l in s0['limit']:
+            if hexstr(l['denom']) == tok.lower() and int(amt) > int(l['amt']):
+                yield sc, n, 'C08: deposit of %s accepted above the per-message limit %s' % (amt, l['amt'])
+        if s0['flag'].get('bm') == '1' or s0['flag'].get('sr') == '1':
+            yield sc, n, 'C08: deposit accepted while paused'
+        mr = bytes.fromhex(a['mint_recipient'])
+        if len(mr) != 32 or not any(mr):
+            yield sc, n, 'C08: deposit accepted with mint recipient %s' % a['mint_recipient']
+        msgr = [m for m in s0['messenger'] if m['domain'] == a['dest']]
+        if not msgr or len(bytes.fromhex(msgr[0]['addr'])) != 32 or not any(bytes.fromhex(msgr[0]['addr'])):
+            yield sc, n, 'C08: deposit accepted without a non-zero 32-byte token messenger for the destination'
+        mb = s0['num'].get('maxbody')
+        if mb is not None and int(mb) < 132:
+            yield sc, n, 'C08: deposit accepted although the 132-byte body exceeds the maximum body size %s' % mb
+        if tok.lower() != sc.env_denom.lower():
+            yield sc, n, 'C08: deposit accepted for burn token %r' % tok
+        if ty == 'DepositForBurnWithCaller':
+            cl = bytes.fromhex(a['caller'])
+            if len(cl) != 32 or not any(cl):
+                yield sc, n, 'C08: deposit-with-caller accepted with destination caller %s' % a['caller']
+        ds = obs.get('D', [])
+        if len(ds) != 2 or not all(d.endswith('ok=1') for d in ds):
+            yield sc, n, 'C08: deposit accepted without a successful debit and a successful burn'
